@@ -1,6 +1,9 @@
 import ScVerif.C09.Codec
 import ScVerif.C08.Include
 import ScVerif.C08.Subscribe
+import ScVerif.C08.Shared
+import ScVerif.C08.SubscribeMany
+import ScVerif.C08.SubscribeSend
 import ScVerif.C08.Booking
 /-! Driver handler for C08.
 
@@ -27,11 +30,31 @@ that publishes several events answers them `;`-separated.
 mask keeps the first resp. second field and the stripped one reads `_`.
 `pull:<mask>:<equiv>:<0|1>` additionally configures an equivalence (`none`/`same`/`first`, applied to the
 masked old/new after include) and `WithUpdatesOnly` (no seed).
+* `mpull <equiv> <n> (<pred> <mask> <updatesOnly 0|1> <at>){n} <op>*`
+                                       the fan-out model (`ScVerif/C08/Shared.lean`): `n` subscribers on ONE
+                                       collection, subscriber k joining (seed, `Listen`) just before the write
+                                       number `at_k` (`at` non-decreasing: subscription order); every published event
+                                       goes through `deliver` (one object, the subscribers' turns in order) →
+                                       per subscriber `seed=<events>` then per later write
+                                       ` <events|drop|fail>@<List with its options>`, subscribers separated by ` # `
 * `sched <pred> <nBefore> <op>* <step>*`   the concurrent subscribe model (`ScVerif/C08/Subscribe.lean`, code as
                                        it is: `locked = true`): the first `nBefore` tokens are writes building the
                                        initial contents, the rest is a schedule of steps `c=<op>` (commit),
                                        `p` (publish), `d=<id>` (deleteNow), `s` (snapshot), `l` (listen) →
                                        `seed=<seed events> recv=<include-filtered received events> list=<List(WithInclude)> pend=<number pending> sub=<idle|snap|listen>`
+* `msched <n> <pred>{n} <nBefore> <op>* <step>*`   the same with `n` subscribers (`ScVerif/C08/SubscribeMany.lean`),
+                                       subscriber `j` filtering with the `j`-th predicate; steps `c=<op>` `p` `d=<id>`
+                                       `s=<j>` (snapshot of subscriber j) `l=<j>` (listen) → per subscriber
+                                       `seed=… recv=… list=… sub=…`, separated by ` # `, then ` | pend=<number pending>`
+* `fsched <n> <pred>{n} <nBefore> <op>* <step>*`   the same with `Bus.Send` taken apart (`ScVerif/C08/SubscribeSend.lean`):
+                                       steps `ps` (sendStart: the oldest pending commit's Send copies the listener
+                                       slice) and `pn` (sendNext: the event in flight is handed to the next listener
+                                       of the copy) instead of `p` → as `msched`, then ` | pend=<n> flight=<0|1>`
+* `lsched <n> <pred>{n} <nBefore> <op>* <step>*`   `msched` with LOSSY subscribers (`WithBackpressure(false)`) that read
+                                       nothing before the end: what a subscriber is sent goes through the
+                                       `mergeCollectionExcess` machine under every recv/emit pattern → per subscriber
+                                       `seed=… list=… sub=… streams=<s1>|<s2>|…` (the include-filtered streams it can be
+                                       delivered), separated by ` # `, then ` | pend=<number pending>`
 * `bpull <q> <nBefore> <op>*`          as `pull`, with the booking server's include option (`bookingInclude`,
                                        `ScVerif/C08/Booking.lean`): message tokens are booked periods `s/e`
                                        (`-` = unbounded side, seconds) or `nil` (no booked period); `<q>` is the
@@ -196,6 +219,60 @@ def handleBPull? (q n : String) (ops : List String) : Option String := do
   let seedEvs := seedFrom 0 (sortById (itemSlice p before.1))
   pure (" ".intercalate (("seed=" ++ showChanges seedEvs) :: pullAfter p o before.1 (ops.drop n)))
 
+structure MSubCfg where
+  sub : SubOpts String String
+  updatesOnly : Bool
+  joinAt : Nat
+
+def parseMSubs? : Nat → List String → Option (List MSubCfg × List String)
+  | 0, rest => some ([], rest)
+  | n + 1, p :: m :: u :: a :: rest => do
+    let p ← parsePred? p
+    let pr ← maskProj m
+    let uo ← parseFlag? u
+    let a ← parseNat? a
+    let (cfgs, rest') ← parseMSubs? n rest
+    pure (⟨⟨p, pr⟩, uo, a⟩ :: cfgs, rest')
+  | _, _ => none
+
+def nondecreasing : List Nat → Bool
+  | a :: b :: rest => a ≤ b && nondecreasing (b :: rest)
+  | _ => true
+
+/-- The `mpull` loop: before write number `j` the subscribers with `joinAt = j` join the bus (their seed is
+taken from the contents at that moment); the write's events go, one object each, through `deliver`. -/
+def mpullLoop (E : Option (Option String → Option String → Bool)) (cfgs : List MSubCfg) :
+    Nat → List (String × String) → List (SubOpts String String × List SChange) → List (List String) →
+    List (Act String String) → List (List String)
+  | j, items, bus, acc, acts =>
+    let joining := cfgs.filter (fun c => c.joinAt = j)
+    let bus := bus ++ joining.map (fun c => (c.sub, []))
+    let acc := acc ++ joining.map (fun c =>
+      ["seed=" ++ showChanges (if c.updatesOnly then [] else
+        (seedFrom 0 (sortById (itemSlice c.sub.pred items))).map (maskChange c.sub.proj))])
+    match acts with
+    | [] => acc
+    | a :: as =>
+      let r := stepAct 0 items a
+      let bus' := r.2.foldl (deliver E) (bus.map (fun so => (so.1, [])))
+      let toks := bus'.map (fun so =>
+        let ev := match r.2 with
+          | [] => (match a with | .op _ => "fail" | _ => "drop")
+          | _ => match so.2.map zeroTime with
+            | [] => "drop"
+            | ds => ";".intercalate (ds.map showChange)
+        ev ++ "@" ++ listOf so.1.pred so.1.proj r.1)
+      mpullLoop E cfgs (j + 1) r.1 bus' (List.zipWith (fun l t => l ++ [t]) acc toks) as
+
+def handleMPull? (e n : String) (rest : List String) : Option String := do
+  let eq ← equivOf e
+  let n ← parseNat? n
+  let (cfgs, ops) ← parseMSubs? n rest
+  let acts ← ops.mapM parseAct?
+  if !nondecreasing (cfgs.map (·.joinAt)) then none
+  if cfgs.any (fun c => c.joinAt > acts.length) then none
+  pure (" # ".intercalate ((mpullLoop eq cfgs 0 [] [] [] acts).map (" ".intercalate ·)))
+
 def parseStep? (s : String) : Option (Step String String) :=
   if s = "p" then some .publish
   else if s = "s" then some .snapshot
@@ -223,6 +300,96 @@ def handleSched? (p n : String) (toks : List String) : Option String := do
     "pend=" ++ toString s.pend.length,
     "sub=" ++ sub])
 
+def parseMStep? (s : String) : Option (MStep String String) :=
+  if s = "p" then some .publish
+  else match s.splitOn "=" with
+    | ["c", op] => (parseOp? op).map MStep.commit
+    | ["d", i] => if i = "" then none else some (.deleteNow i)
+    | ["s", j] => (parseNat? j).map MStep.snapshot
+    | ["l", j] => (parseNat? j).map MStep.listen
+    | _ => none
+
+def handleMSched? (n : String) (rest : List String) : Option String := do
+  let n ← parseNat? n
+  if n + 1 > rest.length then none
+  let preds ← (rest.take n).mapM parsePred?
+  let nb ← parseNat? ((rest.drop n).headD "")
+  let toks := rest.drop (n + 1)
+  if nb > toks.length then none
+  let ops ← (toks.take nb).mapM parseOp?
+  let steps ← (toks.drop nb).mapM parseMStep?
+  let s := msysRun true preds (MSys.init (runOps 0 [] ops).1 n) steps
+  let showSub := fun (ps : Option (Pred String String) × ScVerif.C08.Sub String String) =>
+    let (sub, seed, recv) := match ps.2 with
+      | .idle => ("idle", [], [])
+      | .snapping seed => ("snap", seed, [])
+      | .listening seed recv => ("listen", seed, recv)
+    " ".intercalate [
+      "seed=" ++ showChanges (seedFrom 0 (sortById seed)),
+      "recv=" ++ showChanges ((recv.filterMap (includeChange ps.1)).map zeroTime),
+      "list=" ++ listOf ps.1 id s.items,
+      "sub=" ++ sub]
+  pure (" # ".intercalate ((preds.zip s.subs).map showSub) ++ " | pend=" ++ toString s.pend.length)
+
+def parseFStep? (s : String) : Option (FStep String String) :=
+  if s = "ps" then some .sendStart
+  else if s = "pn" then some .sendNext
+  else match s.splitOn "=" with
+    | ["c", op] => (parseOp? op).map FStep.commit
+    | ["d", i] => if i = "" then none else some (.deleteNow i)
+    | ["s", j] => (parseNat? j).map FStep.snapshot
+    | ["l", j] => (parseNat? j).map FStep.listen
+    | _ => none
+
+def showSubOf (items : List (String × String)) (ps : Option (Pred String String) × ScVerif.C08.Sub String String) : String :=
+  let (sub, seed, recv) := match ps.2 with
+    | .idle => ("idle", [], [])
+    | .snapping seed => ("snap", seed, [])
+    | .listening seed recv => ("listen", seed, recv)
+  " ".intercalate [
+    "seed=" ++ showChanges (seedFrom 0 (sortById seed)),
+    "recv=" ++ showChanges ((recv.filterMap (includeChange ps.1)).map zeroTime),
+    "list=" ++ listOf ps.1 id items,
+    "sub=" ++ sub]
+
+def handleFSched? (n : String) (rest : List String) : Option String := do
+  let n ← parseNat? n
+  if n + 1 > rest.length then none
+  let preds ← (rest.take n).mapM parsePred?
+  let nb ← parseNat? ((rest.drop n).headD "")
+  let toks := rest.drop (n + 1)
+  if nb > toks.length then none
+  let ops ← (toks.take nb).mapM parseOp?
+  let steps ← (toks.drop nb).mapM parseFStep?
+  let s := fsysRun true preds (FSys.init (runOps 0 [] ops).1 n) steps
+  pure (" # ".intercalate ((preds.zip s.subs).map (showSubOf s.items)) ++ " | pend=" ++ toString s.pend.length
+    ++ " flight=" ++ (if s.flight.isSome then "1" else "0"))
+
+def handleLSched? (n : String) (rest : List String) : Option String := do
+  let n ← parseNat? n
+  if n + 1 > rest.length then none
+  let preds ← (rest.take n).mapM parsePred?
+  let nb ← parseNat? ((rest.drop n).headD "")
+  let toks := rest.drop (n + 1)
+  if nb > toks.length then none
+  let ops ← (toks.take nb).mapM parseOp?
+  let steps ← (toks.drop nb).mapM parseMStep?
+  let s := msysRun true preds (MSys.init (runOps 0 [] ops).1 n) steps
+  let showSub := fun (ps : Option (Pred String String) × ScVerif.C08.Sub String String) =>
+    let (sub, seed, recv) := match ps.2 with
+      | .idle => ("idle", [], [])
+      | .snapping seed => ("snap", seed, [])
+      | .listening seed recv => ("listen", seed, recv)
+    let ins := recv.map zeroTime
+    let streams := (allEmits (2 * ins.length + 2) MState.init ins).map
+      (fun em => showChanges (em.filterMap (includeChange ps.1)))
+    " ".intercalate [
+      "seed=" ++ showChanges (seedFrom 0 (sortById seed)),
+      "list=" ++ listOf ps.1 id s.items,
+      "sub=" ++ sub,
+      "streams=" ++ "|".intercalate streams.eraseDups]
+  pure (" # ".intercalate ((preds.zip s.subs).map showSub) ++ " | pend=" ++ toString s.pend.length)
+
 def handle? (toks : List String) : Option String :=
   match toks with
   | ["include", p, c] => do
@@ -230,6 +397,10 @@ def handle? (toks : List String) : Option String :=
     let c ← parseChange? c
     pure (showOptChange (includeChange p c))
   | "sched" :: p :: n :: rest => handleSched? p n rest
+  | "mpull" :: e :: n :: rest => handleMPull? e n rest
+  | "msched" :: n :: rest => handleMSched? n rest
+  | "fsched" :: n :: rest => handleFSched? n rest
+  | "lsched" :: n :: rest => handleLSched? n rest
   | "bpull" :: q :: n :: rest => handleBPull? q n rest
   | op :: p :: n :: ops => do
     if let some o := parseOpName? "pull" op then
